@@ -129,12 +129,18 @@ Section Gate.
   (** * One key: verify_signature = Ok means a listed signature by that key that the oracle
         accepts over exactly the signed message *)
 
+  (** the value the oracle is asked about: the sslib "sig" field, or for OpenPGP signatures the
+      pair signature:other_headers (both are covered by the cryptographic check) *)
+  Definition sig_value_of (sig : json) (sval : str) : Prop :=
+    jstr_of (jget S_sig sig) = Some sval \/
+    exists sv hdr, jstr_of (jget S_signature sig) = Some sv /\
+                   jstr_of (jget S_other_headers sig) = Some hdr /\ sval = sv ++ 58%N :: hdr.
+
   (** the oracle itself said yes, for a listed signature, over the signed message *)
   Definition oracle_accepts (md : metadata) (key : json) : Prop :=
     exists sig msg tok sval,
       In sig (md_signatures md) /\ signed_message md = Ok msg /\
-      (jstr_of (jget S_sig sig) = Some sval \/ jstr_of (jget S_signature sig) = Some sval) /\
-      sig_ok tok msg sval = true.
+      sig_value_of sig sval /\ sig_ok tok msg sval = true.
 
   Lemma sslib_verify_true : forall sig key msg,
     sslib_verify sig_ok sig key msg = Ok true ->
@@ -156,14 +162,17 @@ Section Gate.
 
   Lemma gpg_verify_true : forall sig key msg,
     gpg_verify sig_ok now_s sig key msg = Ok true ->
-    exists tok sval, jstr_of (jget S_signature sig) = Some sval /\ sig_ok tok msg sval = true.
+    exists tok sv hdr, jstr_of (jget S_signature sig) = Some sv /\
+                       jstr_of (jget S_other_headers sig) = Some hdr /\
+                       sig_ok tok msg (sv ++ 58%N :: hdr) = true.
   Proof.
     intros sig key msg H. unfold gpg_verify in H.
     destruct (jstr_of (jget S_keyid sig)) as [skid|]; [|discriminate H].
     destruct (jstr_of (jget S_keyid key)) as [mkid|]; [|discriminate H].
-    destruct (jstr_of (jget S_signature sig)) as [sval|] eqn:E3; [|discriminate H].
+    destruct (jstr_of (jget S_signature sig)) as [sv|] eqn:E3; [|discriminate H].
+    destruct (jstr_of (jget S_other_headers sig)) as [hdr|] eqn:E4; [|discriminate H].
     match type of H with context [sig_ok (fst ?s) _ _] => set (sel := s) in * end.
-    exists (fst sel), sval. split; [reflexivity|].
+    exists (fst sel), sv, hdr. split; [reflexivity|]. split; [reflexivity|].
     destruct (jget S_creation_time (snd sel)) as [[]|]; try (inversion H; reflexivity);
       destruct (jget S_validity_period (snd sel)) as [[]|]; try (inversion H; reflexivity).
     match type of H with (if ?c then _ else _) = _ => destruct c end; [discriminate H|].
@@ -216,8 +225,9 @@ Section Gate.
     intros md key [sig [msg [Hin [_ [Hmsg [H|H]]]]]].
     - apply sslib_verify_true in H. destruct H as [kid [pub [sval [_ [_ [Hs Hok]]]]]].
       exists sig, msg, pub, sval. repeat split; try assumption. left. exact Hs.
-    - apply gpg_verify_true in H. destruct H as [tok [sval [Hs Hok]]].
-      exists sig, msg, tok, sval. repeat split; try assumption. right. exact Hs.
+    - apply gpg_verify_true in H. destruct H as [tok [sv [hdr [Hs [Hh Hok]]]]].
+      exists sig, msg, tok, (sv ++ 58%N :: hdr). repeat split; try assumption.
+      right. exists sv, hdr. repeat split; assumption.
   Qed.
 
   (* ---------------------------------------------------------------- *)
@@ -407,8 +417,9 @@ Section Gate.
     intros sig key m H. unfold gpg_verify in *.
     destruct (jstr_of (jget S_keyid sig)) as [skid|]; [|discriminate H].
     destruct (jstr_of (jget S_keyid key)) as [mkid|]; [|discriminate H].
-    destruct (jstr_of (jget S_signature sig)) as [sval|]; [|discriminate H].
-    match type of H with context [sig_ok (fst ?x) _ _] => set (sel := x) in * end.
+    destruct (jstr_of (jget S_signature sig)) as [sv|]; [|discriminate H].
+    destruct (jstr_of (jget S_other_headers sig)) as [hdr|]; [|discriminate H].
+    match type of H with context [sig_ok (fst ?x) _ ?v] => set (sel := x) in *; set (sval := v) in * end.
     exists (fst sel), sval.
     destruct (jget S_creation_time (snd sel)) as [[| |c| | | |]|];
       try (injection H as Hv; split; [exact Hv|intro m'; reflexivity]).
